@@ -154,6 +154,15 @@ func judge(c fragCase, p prepared, o cli.Outcome) harness.Result {
 	if gaps > 0 {
 		labels = append(labels, "empty-reads")
 	}
+	if rb := spec.EncodeRequest(f, c.Req); len(p.reply) > len(rb) && bytes.HasPrefix(p.reply, rb) {
+		labels = append(labels, "reply-begins-with-the-request-bytes")
+	}
+	if c.SlowLastMs > 0 {
+		labels = append(labels, "last-read-blocks-beyond-timeout")
+	}
+	if c.ExplicitParser {
+		labels = append(labels, "explicit-parser")
+	}
 	if o.Panic != nil {
 		return harness.Fail("client panicked: %v", o.Panic)
 	}
